@@ -105,7 +105,8 @@ def loop_inv(I, phase):
     c19 = I.c19
     sm = summary_of(I)
     if sm is None:
-        return [("C19.InMemorySessionManager.cleanup_expired.loop_has_summary", z3.BoolVal(False))]
+        raise Unsupported("C19 proof script: the deletion loop is not preceded by the filter comprehension the invariant "
+                          "summarises (cleanup_expired has another shape)")
     D, sel, idx, R = sm["D"], sm["sel"], sm["idx"], sm["R"]
     cur, _ = I.get_field(c19.mgr, "sessions")
     i = Val.i(I.frame.vars["__i0"])
